@@ -1170,6 +1170,7 @@ class quantized_linear(base_quantizer.BaseQuantizer):
         "alpha": self.alpha,
         "keep_negative": self.keep_negative,
         "use_stochastic_rounding": self.use_stochastic_rounding,
+        "scale_axis": self.scale_axis,
         "qnoise_factor": self.qnoise_factor,
     }
     return config
